@@ -369,4 +369,112 @@ theorem runOpsC_eq_runOps' (kidsC : Rat → Entry → List (Rat × Nat)) (fuel :
             (stepOp (tableKids (runOpsC kidsC fuel (stepOpC kidsC fuel hc op) ops).tbl) fuel hc.h op) ops := rfl
       rw [this, hstep, hrun]
 
+/-! ### a witness that reading the clock matters -/
+
+/-- the docstring idiom: re-insert a quarter after the *clock* -/
+def everyQuarterOfClock : Rat → Entry → List (Rat × Nat) := fun clk e => [(clk + 1/4, e.id)]
+
+/-- ... and its entry-only reading: a quarter after the callback's own time -/
+def everyQuarter : Entry → List (Rat × Nat) := fun e => [(e.time + 1/4, e.id)]
+
+/-- two callbacks half a threshold apart: the second runs with the clock resting at the first's time -/
+def twoClose : Sys := addCallback (addCallback init 1 0) (1 + eps / 2) 1
+
+/-! ### the hypotheses of the history theorems, decided by walking the history -/
+
+theorem runOps_cons (kids : Entry → List (Rat × Nat)) (fuel : Nat) (h : Hist) (op : Op) (ops : List Op) :
+    runOps kids fuel h (op :: ops) = runOps kids fuel (stepOp kids fuel h op) ops := rfl
+
+theorem addsFromB_iff' (f : Hist → Rat) (kids : Entry → List (Rat × Nat)) (fuel : Nat) (ops : List Op) :
+    ∀ h, addsFromB f kids fuel h ops = true ↔
+      ∀ pre t id post, ops = pre ++ Op.add t id :: post → f (runOps kids fuel h pre) ≤ t := by
+  induction ops with
+  | nil => intro h; simp [addsFromB]
+  | cons op ops ih =>
+    intro h
+    have key : (∀ pre t id post, op :: ops = pre ++ Op.add t id :: post → f (runOps kids fuel h pre) ≤ t) ↔
+        ((∀ t id, op = Op.add t id → f h ≤ t) ∧
+         ∀ pre t id post, ops = pre ++ Op.add t id :: post →
+           f (runOps kids fuel (stepOp kids fuel h op) pre) ≤ t) := by
+      constructor
+      · intro H
+        refine ⟨fun t id ho => ?_, fun pre t id post ho => ?_⟩
+        · exact H [] t id ops (by simp [ho])
+        · have := H (op :: pre) t id post (by simp [ho])
+          rwa [runOps_cons] at this
+      · rintro ⟨H1, H2⟩ pre t id post ho
+        cases pre with
+        | nil =>
+          simp at ho
+          exact H1 t id ho.1
+        | cons p pre' =>
+          simp at ho
+          obtain ⟨rfl, ho⟩ := ho
+          rw [runOps_cons]; exact H2 pre' t id post ho
+    rw [key]
+    cases op with
+    | add t id =>
+      simp only [addsFromB, Bool.and_eq_true, decide_eq_true_eq, ih]
+      constructor
+      · rintro ⟨h1, h2⟩
+        exact ⟨fun t' id' ho => by cases ho; exact h1, h2⟩
+      · rintro ⟨h1, h2⟩
+        exact ⟨h1 t id rfl, h2⟩
+    | evolve T =>
+      simp only [addsFromB, ih]
+      constructor
+      · intro h2
+        exact ⟨fun t' id' ho => (nomatch ho), h2⟩
+      · rintro ⟨-, h2⟩; exact h2
+
+theorem noFuelOutB_iff' (kids : Entry → List (Rat × Nat)) (fuel : Nat) (ops : List Op) :
+    ∀ h, noFuelOutB kids fuel h ops = true ↔
+      ∀ pre T post, ops = pre ++ Op.evolve T :: post →
+        (evolveUntil kids fuel (runOps kids fuel h pre).s T).status ≠ .outOfFuel := by
+  induction ops with
+  | nil => intro h; simp [noFuelOutB]
+  | cons op ops ih =>
+    intro h
+    have key : (∀ pre T post, op :: ops = pre ++ Op.evolve T :: post →
+          (evolveUntil kids fuel (runOps kids fuel h pre).s T).status ≠ .outOfFuel) ↔
+        ((∀ T, op = Op.evolve T → (evolveUntil kids fuel h.s T).status ≠ .outOfFuel) ∧
+         ∀ pre T post, ops = pre ++ Op.evolve T :: post →
+           (evolveUntil kids fuel (runOps kids fuel (stepOp kids fuel h op) pre).s T).status ≠ .outOfFuel) := by
+      constructor
+      · intro H
+        refine ⟨fun T ho => ?_, fun pre T post ho => ?_⟩
+        · exact H [] T ops (by simp [ho])
+        · have := H (op :: pre) T post (by simp [ho])
+          rwa [runOps_cons] at this
+      · rintro ⟨H1, H2⟩ pre T post ho
+        cases pre with
+        | nil =>
+          simp at ho
+          exact H1 T ho.1
+        | cons p pre' =>
+          simp at ho
+          obtain ⟨rfl, ho⟩ := ho
+          rw [runOps_cons]; exact H2 pre' T post ho
+    rw [key]
+    cases op with
+    | add t id =>
+      simp only [noFuelOutB, ih]
+      constructor
+      · intro h2
+        exact ⟨fun T ho => (nomatch ho), h2⟩
+      · rintro ⟨-, h2⟩; exact h2
+    | evolve T =>
+      simp only [noFuelOutB, Bool.and_eq_true, decide_eq_true_eq, ih]
+      constructor
+      · rintro ⟨h1, h2⟩
+        exact ⟨fun T' ho => by cases ho; exact h1, h2⟩
+      · rintro ⟨h1, h2⟩
+        exact ⟨h1 T rfl, h2⟩
+
+theorem addsFromB_iff (f : Hist → Rat) (kids : Entry → List (Rat × Nat)) (fuel : Nat) (ops : List Op) :
+    addsFromB f kids fuel hinit ops = true ↔ AddsFrom f kids fuel ops := addsFromB_iff' f kids fuel ops hinit
+
+theorem noFuelOutB_iff (kids : Entry → List (Rat × Nat)) (fuel : Nat) (ops : List Op) :
+    noFuelOutB kids fuel hinit ops = true ↔ NoFuelOut kids fuel ops := noFuelOutB_iff' kids fuel ops hinit
+
 end HcipyVerif.Scheduler
